@@ -3,6 +3,7 @@ import Drv.PkgLen
 import Drv.AmlScalars
 import Drv.Tables
 import Drv.Fixed
+import Drv.Aml
 open Drv
 
 /-- one line `stream case… | impl…` → failures -/
@@ -26,6 +27,9 @@ def checkLine (line : String) : List Fail :=
       | "tblbig" => checkTbl case impl
       | "ent" => checkEnt case impl
       | "fix" => checkFix case impl
+      | "aml" => checkAml case impl
+      | "amlalt" => checkAml case impl
+      | "amlbig" => checkAmlBig case impl
       | _ => [⟨"corr", "-", "driver", s!"unknown stream {stream}"⟩]
     | [] => [⟨"corr", "-", "driver", "empty line"⟩]
   | _ => [⟨"corr", "-", "driver", "malformed line (no ' | ')"⟩]
